@@ -170,5 +170,6 @@ pub fn def() -> PropDef {
         assumptions: &["NUL padding makes a close-marker position ambiguous; the walk uses the earliest possible end, which cannot create a false alarm", "hits whose text does not match the stored title are left to C02"],
         spaces: vec![Space { name: "world", decode, plan: |t| Plan::Random(t.n(300_000, 4_000_000)) }],
         differential: false,
+        floors: &[("hits", 0.5)],
     }
 }
